@@ -3,5 +3,7 @@
 #![allow(missing_docs, unused_imports, unused, dead_code, unreachable_pub)]
 #![allow(clippy::all, clippy::pedantic)]
 
-// child-module probe
-use super::*;
+// Child-module probe of the repository module `estimator`. Sub-files (one owner each) see that
+// module as `super::super` and may touch its private items.
+#[path = "estimator_a9.rs"]
+pub mod a9;
